@@ -24,6 +24,32 @@ CLAIMS = {
    text='Theorems C03_parts (all-at-once decomposition = ranges of the composed parts for every wf authority) and C03_find_host (host scanner at any offset). user_info() and port() '
         'individual scanners are modelled and compared with the implementation and the RFC oracle on generated authorities (not yet proved: partial).',
    note=TB + 'The bridge from the RFC authority grammar to wf_aparts is not yet proved (the correspondence oracle composes from RFC-valid parts).'),
+ 'C04': dict(cat='proof', tech='Coq proof (induction over setter sequences on top of the splice refinement) + model/implementation correspondence over random mutator sequences',
+   text='Theorem C04_setter_sequences_partial: every finite sequence of the five setters with valid arguments, from any well-formed reference, runs without panic in the L0 model '
+        '(bounds-checked indices, checked subtraction) and ends in compose p\' with p\' well-formed; C04_splice_total: the range splice never indexes out of bounds. Sequences mixing '
+        'the path handle, authority handle, normalize and in-place resolve are executed on the implementation (dev profile, catch_unwind, re-validation after EVERY call) and on the '
+        'extracted model of all of them; partial: their well-formedness preservation is proved only where C10/C11 theorems exist.',
+   note=TB),
+ 'C05': dict(cat='proof', tech='Coq proof (scanner value lemmas + splice refinement replace_spec) + model/implementation correspondence with a relational oracle',
+   text='Theorems C05_set_scheme/_authority/_path/_query/_fragment: on compose p the L0 model of each setter returns compose p\' with exactly that component replaced, all others '
+        'identical, the written path related to the requested one by `permitted` (the three documented disambiguations under exactly their conditions), and p\' well-formed so that '
+        'C02 reads it back; C05_replace: tail-preserving splice for any tail length.',
+   note=TB),
+ 'C11': dict(cat='proof', tech='Coq proof (handle invariant Inv, scanner value on the window, splice refinement) + correspondence over call sequences through one handle',
+   text='Theorems C11_view (under Inv the handle views exactly acompose a) and C11_set_host (no panic, Inv re-established for the updated authority, before/after untouched). '
+        'set_userinfo / set_port and whole call histories are modelled (L0, with the `end` arithmetic of the code) and compared with the implementation after every call; partial: '
+        'their Inv-preservation theorems are not yet proved.',
+   note=TB),
+ 'C12': dict(cat='proof', tech='Coq proof (induction over an arbitrary next/next_back script) + model/implementation correspondence with the /-split oracle',
+   text='Theorem C12_interleave: for every non-empty path pfx ++ join l and EVERY finite script of next/next_back calls the iterator model never panics and yields segment k from the '
+        'front, n-m-1 from the back, None after the cursors meet. Derived queries (first, last, file_name, directory, parent, counts) are modelled (PathQ.v) and compared with the '
+        'implementation and an independent split oracle.',
+   note=TB),
+ 'C20': dict(cat='proof', tech='Coq proof of range ordering/containment over the scanner model; allocation counting and pointer-range observation in the harness',
+   text='Theorems C20_reference_ranges / C20_authority_ranges: the ranges returned by the decomposition of any well-formed reference/authority are well-formed, ordered, disjoint and inside '
+        'the input. That results are sub-slices (pointer identity) and that 0 heap allocations happen is OBSERVED by the harness (counting global allocator, inputs to 64 kB): a '
+        'value-level Gallina model has no heap, so that half is test-level (partial).',
+   note=TB + 'Allocation behaviour is runtime behaviour the model cannot exhibit.'),
 }
 
 def check_entry(pid, c):
